@@ -177,6 +177,74 @@ def refs_child(job):
         except Exception as e:  # noqa: BLE001
             out.append({"label": label, "ok": False, "got": f"{type(e).__name__}: {e}"[:160]})
     out.extend(nested_refs(job))
+    out.extend(lambda_refs())
+    return out
+
+
+LAMBDA_A = '''
+from __future__ import annotations
+import dataclasses, typelib
+@dataclasses.dataclass
+class Item:
+    n: int
+    tags: list[str] = dataclasses.field(default_factory=list)
+cb = lambda ref, x: typelib.unmarshal(ref, x)
+mcb = lambda ref, v: typelib.marshal(v, t=ref)
+def gen(ref, xs):
+    return (typelib.unmarshal(ref, x) for x in xs)
+def comp(ref, xs):
+    return [typelib.unmarshal(ref, x) for x in xs]
+def fn(ref, x):
+    return typelib.unmarshal(ref, x)
+'''
+LAMBDA_B = '''
+import vm_c11_la as la
+def call(f, *a):
+    return f(*a)
+def consume(g):
+    return list(g)
+class Item:
+    pass
+'''
+
+
+def lambda_refs():
+    """References issued at a nested call depth whose frame is a lambda / generator expression of the defining module, run by
+    ANOTHER module (a callback, a lazily consumed generator): the caller of the library is still the defining module."""
+    import importlib
+    import os
+    import sys
+    import tempfile
+    d = tempfile.mkdtemp(prefix="c11lam")
+    sys.path.insert(0, d)
+    with open(os.path.join(d, "vm_c11_la.py"), "w") as f:
+        f.write(LAMBDA_A)
+    with open(os.path.join(d, "vm_c11_lb.py"), "w") as f:
+        f.write(LAMBDA_B)
+    a, b = importlib.import_module("vm_c11_la"), importlib.import_module("vm_c11_lb")
+    import typelib
+    wire = {"n": "3", "tags": ["a"]}
+    base = typelib.unmarshal(a.Item, wire)
+    plain = typelib.marshal(base, t=a.Item)
+    cases = [
+        ("'list[Item]' from a lambda of the defining module run by another module", lambda: b.call(a.cb, "list[Item]", [wire]), [base]),
+        ("'dict[str, Item]' from a generator expression consumed by another module", lambda: b.consume(a.gen("dict[str, Item]", [{"k": wire}])), [{"k": base}]),
+        ("marshal t='tuple[Item, ...]' from a lambda run by another module", lambda: b.call(a.mcb, "tuple[Item, ...]", (base,)), [plain]),
+        ("'Item | None' from a lambda run by another module", lambda: b.call(a.cb, "Item | None", wire), base),
+        ("'set[Item] | None' from a comprehension", lambda: a.comp("list[Item] | None", [[wire]]), [[base]]),
+        ("'list[Item]' from a function of the defining module, afterwards", lambda: a.fn("list[Item]", [wire]), [base]),
+        # known finding refTextSharedAcrossModules: module vm_c11_a issued the text 'Item' for ITS class earlier in this process
+        ("'Item' from a second module that defines its own Item, after another module issued the same text", lambda: a.fn("Item", wire), base),
+    ]
+    out = []
+    for label, fn, exp in cases:
+        try:
+            got = fn()
+            out.append({"label": label, "ok": got == exp and type(got) is type(exp), "got": f"{type(got).__module__}.{got!r}"[:120]})
+        except Exception as e:  # noqa: BLE001
+            out.append({"label": label, "ok": False, "got": f"{type(e).__name__}: {e}"[:160]})
+    if not out[-1]["ok"] and out[-1]["got"].startswith("vm_c11_a.Item("):
+        out[-1]["finding"] = "refTextSharedAcrossModules"
     return out
 
 
@@ -689,7 +757,7 @@ def explore(ctx):
             res.case({"reference": o["label"]}, True)
             if not o["ok"]:
                 res.failures.append({"what": f"reference {o['label']} did not behave like the type it names: {o['got']}",
-                                     "input": {"reference": o["label"], "seed": ctx.seed}})
+                                     "input": {"reference": o["label"], "seed": ctx.seed}, **({"finding": o["finding"]} if o.get("finding") else {})})
             else:
                 res.count("oracle:reference-ok")
     bytes_chain_probe(res)
